@@ -124,11 +124,15 @@ let predict (c : string) (obs : string) : string * string * bool =
         if kind = "guns" then begin
           if spec_guns_b o then "ok"
           else begin
-            let bind_failed = List.exists (fun (_, c) -> c = CBind) all_fails in
+            (* which guns stayed open: the warm-up gun of every pool that got one and the guns whose Bind
+               failed are never handed to an instance; anything beyond those is a gun of a started instance *)
+            let warm = List.length (List.filter (fun t -> match String.split_on_char '.' t with
+              | [ _; "pre"; ("ok" | "warm" | "sched") ] -> true | _ -> false) toks) in
+            let bindf = List.length (List.filter (fun (_, c) -> c = CBind) all_fails) in
             let unclosed = int_of_nat o.o_created - int_of_nat o.o_closed in
             Printf.sprintf "BAD:guns-unclosed:%s created=%s closed=%s"
-              (if bind_failed && unclosed > npools then "warm-up-gun+gun-whose-Bind-failed"
-               else if bind_failed then "warm-up-gun-or-gun-whose-Bind-failed" else "warm-up-gun")
+              (if unclosed <> warm + bindf then "gun-of-a-started-instance"
+               else if bindf > 0 then "warm-up-gun+gun-whose-Bind-failed" else "warm-up-gun")
               (field of_ "C") (field of_ "L")
           end
         end
